@@ -35,7 +35,7 @@ ASSUMPTIONS = [
     "Richardson central differences (h = 1e-4*|x|, /2, /4); violation only if both reject",
     "tolerance complex step: 1e-9*max(|claimed|,|oracle|)_inf + 1e-12*(stiffness_max * strain magnitude) for cancellation; "
     "finite differences: 1e-6*scale + 20*(Richardson uncertainty) + 200*eps*|f|/h rounding bound",
-    "Harsch2021 is evaluated only for |B_Gamma| >= 1e-3 (its energy is not differentiable at B_Gamma = 0); Simo1986 also at zero vectors",
+    "Harsch2021 is evaluated only for |B_Gamma| >= 1e-6 (its energy is not differentiable at B_Gamma = 0); Simo1986 also at zero vectors",
     "stiffness vectors strictly positive, 1e-3..1e6; strains 1e-3..1e3; |B_Gamma0| in [1e-3, 1e3] incl. exactly 1",
 ]
 REQUIRED_MONITORS = ["purity", "grad.B_n", "grad.B_m", "tangent.B_n_B_Gamma", "tangent.B_n_B_Kappa", "tangent.B_m_B_Gamma",
@@ -47,7 +47,7 @@ WALL_BUDGET = {"quick": 300, "thorough": 1500}
 KF_HARSCH = "Harsch2021.B_n_B_Gamma/missing-lambda0-on-dyadic-term"
 
 LAWS = ["Simo1986", "Harsch2021"]
-REGIMES = ["near", "moderate", "far", "stretch", "stressfree", "rodlike", "zeros"]
+REGIMES = ["near", "moderate", "far", "stretch", "stressfree", "rodlike", "zeros", "short"]
 EPS = np.finfo(float).eps
 
 
@@ -158,6 +158,11 @@ def _inputs(rng, law, regime):
         K = K0.copy()
         if rng.random() < 0.5:  # same length, rotated: Harsch axial term vanishes, shear does not
             G = _dir(rng) * n0
+    elif regime == "short":
+        # strongly compressed: a strain vector far shorter than the reference one (|B_Gamma| 1e-6..1e-2 of order-one units);
+        # every law is smooth there, the Harsch2021 terms in 1/|B_Gamma| are large
+        G = _dir(rng) * loguniform(rng, 1e-6, 1e-2)
+        K = K0 + _vec(rng, 1e-3, 10)
     elif regime == "zeros":  # Simo1986 only
         G = np.zeros(3) if rng.random() < 0.6 else _vec(rng, 1e-3, 1e3)
         K = np.zeros(3) if rng.random() < 0.6 else _vec(rng, 1e-3, 1e3)
@@ -177,8 +182,8 @@ def _inputs(rng, law, regime):
         G = pattern() * float(loguniform(rng, 0.3, 3.0))
         K = pattern() * float(loguniform(rng, 1e-2, 10.0))
         cS = "strain:tied_or_zero_components"
-    if law == "Harsch2021" and np.linalg.norm(G) < 1e-3:
-        G = _dir(rng) * 1e-3
+    if law == "Harsch2021" and np.linalg.norm(G) < 1e-6:
+        G = _dir(rng) * 1e-6
     Ei, cE = _stiffness(rng)
     Fi, _ = _stiffness(rng)
     return Ei, Fi, G, G0, K, K0, [c0, cK0, cE] + ([cS] if cS else [])
